@@ -61,13 +61,15 @@ Configs ==
 (* beams: a straight member of length 3 with a 1/2 x 1/4 rectangular section, E = 10, inclined in 2-D / 3-D.     *)
 (* constant axial strain e0 -> N = E A e0 ;  constant curvature kappa (no shear) -> Mz = E Iz kappa               *)
 BeamE == RI(10)   BeamA == R(1, 8)   BeamIz == R(1, 1536)      \* b h^3 / 12 with b = 1/2 (along z), h = 1/4 (along y)
+BeamIy == R(1, 384)                                                \* h b^3 / 12: bending in the (member, local z) plane, 3-D only ("curvature_y" -> My = E Iy kappa)
 (* the member is one beam (elimination) or two collinear beams welded at mid-length (Lagrange path); the axial field carries  *)
 (* a rigid offset so that every prescribed value is non-zero                                                                  *)
 BeamConfigs == {[phys |-> "beam", dim |-> d, elem |-> e, law |-> th, ps |-> FALSE, mesh |-> "unstructured", map |-> "id", field |-> f, bc |-> "func", path |-> pa, unit |-> 0] :
-                   d \in {1, 2, 3}, e \in Elems1D, th \in {"EB", "Timo"}, f \in {"axial", "curvature"}, pa \in Paths}
+                   d \in {1, 2, 3}, e \in Elems1D, th \in {"EB", "Timo"}, f \in {"axial", "curvature", "curvature_y"}, pa \in Paths}
 BeamValid(c) == /\ (c.field = "curvature") => c.dim >= 2
-                /\ (c.field = "curvature" /\ c.law = "Timo") => c.elem # "SEG2"   \* a linear deflection cannot carry a constant curvature
-BeamExpect(c, amp) == IF c.field = "axial" THEN Mul3(BeamE, BeamA, amp) ELSE Mul3(BeamE, BeamIz, amp)
+                /\ (c.field = "curvature_y") => c.dim = 3
+                /\ (c.field \in {"curvature", "curvature_y"} /\ c.law = "Timo") => c.elem # "SEG2"   \* a linear deflection cannot carry a constant curvature
+BeamExpect(c, amp) == IF c.field = "axial" THEN Mul3(BeamE, BeamA, amp) ELSE IF c.field = "curvature" THEN Mul3(BeamE, BeamIz, amp) ELSE Mul3(BeamE, BeamIy, amp)
 
 Valid(c) ==
     /\ c.dim = 2 => c.elem \in Elems2D
